@@ -368,6 +368,7 @@ impl<K1: Clone + Eq + Hash, K2: Copy + Eq + Hash, V: PartialEq> PartitionedCache
         let expiry = now + ttl;
         let tuple = (value, expiry);
         if let Some(partition) = self.partitions.get_mut(&partition_key) {
+            let mut recompute_next_expiry = false;
             if let Some(tuples) = partition.records.get_mut(&record_key) {
                 let mut duplicate_expires_at = None;
                 for i in 0..tuples.len() {
@@ -385,20 +386,24 @@ impl<K1: Clone + Eq + Hash, K2: Copy + Eq + Hash, V: PartialEq> PartitionedCache
                     partition.size -= 1;
                     self.current_size -= 1;
 
-                    if dup_expiry == partition.next_expiry {
-                        let mut new_next_expiry = expiry;
-                        for (_, e) in tuples {
-                            if *e < new_next_expiry {
-                                new_next_expiry = *e;
-                            }
-                        }
-                        partition.next_expiry = new_next_expiry;
-                        self.expiry_priority
-                            .change_priority(&partition_key, Reverse(partition.next_expiry));
-                    }
+                    // the replaced record may have been the next to expire
+                    recompute_next_expiry = dup_expiry == partition.next_expiry;
                 }
             } else {
                 partition.records.insert(record_key, vec![tuple]);
+            }
+            if recompute_next_expiry {
+                let mut new_next_expiry = expiry;
+                for tuples in partition.records.values() {
+                    for (_, e) in tuples {
+                        if *e < new_next_expiry {
+                            new_next_expiry = *e;
+                        }
+                    }
+                }
+                partition.next_expiry = new_next_expiry;
+                self.expiry_priority
+                    .change_priority(&partition_key, Reverse(partition.next_expiry));
             }
             partition.last_read = now;
             partition.size += 1;
